@@ -70,16 +70,21 @@ func vMkApp(key string, setA, setX *string, seenA, seenB, seenX *string) *fiber.
 	app.Get("/set", func(c fiber.Ctx) error {
 		c.Cookie(&fiber.Cookie{Name: "a", Value: *setA})
 		c.Cookie(&fiber.Cookie{Name: "x", Value: *setX})
+		// a name that differs from the excepted one only in letter case is a different cookie
+		c.Cookie(&fiber.Cookie{Name: "X", Value: "capx"})
 		return nil
 	})
 	app.Get("/get", func(c fiber.Ctx) error {
 		*seenA = c.Cookies("a")
 		*seenB = c.Cookies("b")
 		*seenX = c.Cookies("x")
+		vSeenCapX = c.Cookies("X")
 		return nil
 	})
 	return app
 }
+
+var vSeenCapX string
 
 func vRespCookie(fctx *fasthttp.RequestCtx, name string) string {
 	var ck fasthttp.Cookie
@@ -121,11 +126,12 @@ func VH_C20_cookies(caseID int) {
 	issuedX := vRespCookie(f1, "x")
 	vAssert(issuedX == "plainx", "excepted-cookie-unchanged-to-client")
 	vAssert(issued != "", "cookie-issued")
+	vAssert(vRespCookie(f1, "X") != "capx", "case-variant-of-excepted-name-is-encrypted")
 	// the client sees an encryptor output: base64 of nonce || ciphertext of the ideal AEAD
 	raw, derr := base64.StdEncoding.DecodeString(issued)
 	vAssert(derr == nil, "issued-is-base64")
 	vAssert(len(raw) == 12+len(plain)+16, "issued-is-ciphertext-sized")
-	vAssert(len(vSealLog) == 1 && string(raw[12:]) == vSealLog[0].ct, "issued-is-encryptor-output")
+	vAssert(len(vSealLog) == 2 && string(raw[12:]) == vSealLog[0].ct, "issued-is-encryptor-output")
 	vAssert(issued != plain, "issued-is-not-the-plaintext")
 
 	// 2. the client sends a (possibly altered) value back
@@ -187,6 +193,7 @@ func VH_C20_cookies(caseID int) {
 	}
 	f2.Request.Header.SetCookie("a", sent)
 	f2.Request.Header.SetCookie("x", "plainx2")
+	f2.Request.Header.SetCookie("X", "forged")
 	if order == 1 {
 		f2.Request.Header.SetCookie("b", "admin")
 	}
@@ -203,6 +210,7 @@ func VH_C20_cookies(caseID int) {
 		vAssert(seenA == "", "tampered-cookie-empty")
 	}
 	vAssert(seenX == "plainx2", "excepted-cookie-unchanged-to-handler")
+	vAssert(vSeenCapX == "", "forged-case-variant-of-excepted-name-empty")
 	if order != 0 {
 		vAssert(seenB == "", "forged-plain-cookie-empty")
 	}
